@@ -490,6 +490,14 @@ def c09g_staging(ctx):
         for r_ in rd:
             if not any(b.site_dominates(f_, r_) for f_ in fx):
                 ctx.fail(o, r_, "the log is read before the deferred messages were applied")
+    # ---- a message for the staging log is never dropped: applied to the heap, or deferred when the heap is locked
+    o = ctx.ob("C09.g", "staging/message-applied-or-deferred", "K2", "ConcurrentLog::apply_message hands every message either to the heap or to the deferred queue")
+    am = ctx.touch(prog.body("ConcurrentLog::apply_message"))
+    sinks = am.calls_to(r"ConcurrentLog::<V>::apply_message_to_heap$") + am.calls_to(r"SegQueue::<T>::push$")
+    o.sites = len(sinks)
+    if len(sinks) < 2 or am.must_pass([0], [s_.bb for s_ in sinks]):
+        ctx.fail(o, Site(am, 0, 0), "ConcurrentLog::apply_message can return without applying or deferring the message: a staged operation issued while the log is being read is "
+                 "lost, the key's readers never see that write until it is committed")
     # ---- a freshly loaded set is overlaid with BOTH halves of the staging snapshot
     o = ctx.ob("C09.g", "fetch_entry/overlays-added-and-removed", "K8",
                "fetch_entry inserts every staged addition and removes every staged removal from the set it loaded")
